@@ -367,6 +367,7 @@ def run(prop, plan, tier, seed, replay, wd, known, t0):
     undecided = collections.Counter()
     distinct = set()
     samples = []
+    by_op = collections.defaultdict(lambda: [0, 0])     # operation -> [events in the domain, skipped as out of domain]
     own, other, tool = [], [], []
     for (f, j, res) in results:
         lines = open(f).read().split("\n")
@@ -383,6 +384,8 @@ def run(prop, plan, tier, seed, replay, wd, known, t0):
             if ev["fam"] == "ctl":
                 continue
             key = rs(ev)
+            if ev["fam"] not in plan.get("trivial_fams", ["load"]):
+                by_op[ev["op"]][1 if (idx + 1) in sk else 0] += 1
             if (idx + 1) in sk or ev["fam"] in plan.get("trivial_fams", ["load"]):
                 continue
             distinct.add(hash(key))
@@ -451,6 +454,9 @@ def run(prop, plan, tier, seed, replay, wd, known, t0):
         "deviations_other_properties": collections.Counter("%s:%s:%s" % (d["prop"], d["op"], d["clause"]) for d in other),
         "known_findings_seen": sorted(seen_known),
         "trace_families": sorted({j["family"] for (_, j, _) in results}),
+        # non-vacuity: how many recorded calls of each operation were inside the property's domain (contract
+        # evaluated) and how many were skipped as outside it
+        "by_operation": {op: {"in_domain": v[0], "out_of_domain": v[1]} for op, v in sorted(by_op.items())},
     }
     ev = {
         "property_id": prop,
